@@ -347,4 +347,61 @@ theorem accepted_call_converts (c : Chars) (seg pn : List Char) (loc : Int)
         exact ⟨valid_implies_convert pn' (by simpa using hvalid), by intro e; subst e; simp at hne⟩
   · rename_i e hne; rw [h] at hne; exact absurd rfl (hne _ _)
 
+/-! ### The value of an accepted start row -/
+
+/-- The multiset test at the heart of `parse_start_row`: crossing the bells off a list one by one
+succeeds exactly when the bells are a rearrangement of that list. -/
+theorem startRow_go_iff (s : List Char) (bells rem : List Nat) (n : Nat) :
+    startRow.go s bells rem = .ok n ↔ bells.Perm rem ∧ n = s.length := by
+  induction bells generalizing rem with
+  | nil =>
+    unfold startRow.go
+    constructor
+    · intro h
+      split at h
+      · rename_i he
+        simp only [PRes.ok.injEq] at h
+        exact ⟨by simp [List.isEmpty_iff.mp he], h.symm⟩
+      · cases h
+    · rintro ⟨hp, rfl⟩
+      have : rem = [] := List.Perm.nil_eq hp |>.symm
+      simp [this]
+  | cons b rest ih =>
+    unfold startRow.go
+    by_cases hc : rem.contains b = true
+    · rw [if_pos hc, ih]
+      have hm : b ∈ rem := by simpa using hc
+      constructor
+      · rintro ⟨hp, hn⟩
+        exact ⟨(List.Perm.cons b hp).trans (List.perm_cons_erase hm).symm, hn⟩
+      · rintro ⟨hp, hn⟩
+        refine ⟨?_, hn⟩
+        have := hp.trans (List.perm_cons_erase hm)
+        exact (List.perm_cons b).mp this
+    · rw [if_neg hc]
+      constructor
+      · intro h; cases h
+      · rintro ⟨hp, _⟩
+        exfalso
+        apply hc
+        have : b ∈ rem := hp.subset (by simp)
+        simpa using this
+
+/-- **What `parse_start_row` accepts, exactly**: a string of bell names that is a rearrangement of
+`1 … k` for its largest bell `k` (so no bell twice, none missing below the largest); the value is the
+length of the string.  Everything else is its own `StartRowParseError`. -/
+theorem startRow_accepts_iff (s : List Char) (n : Nat) :
+    startRow s = .ok n ↔
+      ∃ bells, bellsOfString s = some bells ∧ bells.Perm (rounds (bells.foldl max 0)) ∧ n = s.length := by
+  unfold startRow
+  cases hb : bellsOfString s with
+  | none => simp
+  | some bells =>
+    simp only [Option.some.injEq, exists_eq_left']
+    exact startRow_go_iff s bells _ n
+
+/-! Non-vacuity: Queens on six is accepted with value 6; a row with a gap is not. -/
+example : startRow "135246".toList = .ok 6 ∧ startRow "1356".toList = .own "StartRowParseError" := by
+  constructor <;> rfl
+
 end Wheatley.C18
